@@ -82,13 +82,47 @@ fn gen_loop(t: &mut Tape, cfg: &LoopCfg, k: usize, inner: Option<usize>) -> Loop
   let limit: u32 = if effects { 30 } else { 1500 };
   // induction variable: start, stride, guard, bound with a bounded trip count
   let (mut start, mut stride, mut op, mut bound) = (0i32, 1i32, "<", 10i32);
-  for _ in 0..10 {
+  // loops that cross most of the 32-bit range in 1-4 huge steps without wrapping: start, bound and their
+  // difference lie near INT_MIN / INT_MAX, where closed forms computed in i32 are most fragile
+  let spanning = t.bool(1, 6);
+  if spanning {
+    let st: i64 = [1_000_000_000i64, 700_000_000, 1 << 30, 2_000_000_000, 1_500_000_000, 536_870_912, 2147483647][t.choose(7)];
+    let up = t.bool(2, 3);
+    let s0: i64 = if up { [0i64, -5, 1, -1_000_000_000, -2147483648, -2147483000][t.choose(6)] } else { [0i64, 5, -1, 1_000_000_000, 2147483647, 2147483000][t.choose(6)] };
+    let room = if up { (2147483647i64 - s0) / st } else { (s0 + 2147483648i64) / st };
+    let n = (room - t.choose(2) as i64).max(0);
+    let last = if up { s0 + n * st } else { s0 - n * st };
+    let k = t.choose(3) as i64;
+    if up {
+      (start, stride, op, bound) = (s0 as i32, st as i32, ["<", "<="][t.choose(2)], (last - k).max(-2147483648) as i32);
+      if op == "<=" {
+        // `i <= bound` must fail at i = last: bound < last
+        bound = (last - 1 - k).max(-2147483648) as i32;
+      }
+    } else {
+      (start, stride, op, bound) = (s0 as i32, (-st) as i32, [">", ">="][t.choose(2)], (last + k).min(2147483647) as i32);
+      if op == ">=" {
+        bound = (last + 1 + k).min(2147483647) as i32;
+      }
+    }
+    // keep only parameters whose simulated run (wrapping, as the target computes) is short
+    let (mut i, mut count) = (start, 0u32);
+    while guard_holds(op, i, bound) && count <= 8 {
+      i = i.wrapping_add(stride);
+      count += 1;
+    }
+    if count > 8 {
+      (start, stride, op, bound) = (0, 1_000_000_000, "<", 2_000_000_000);
+    }
+  }
+  for _ in 0..if spanning { 0 } else { 10 } {
     let s0 = INTERESTING[t.choose(INTERESTING.len())].wrapping_add(t.int_in(-3, 3) as i32);
     let st: i32 = match t.weighted(&[5, 3, 2, 1]) {
       0 => [1, -1][t.choose(2)],
       1 => [2, 3, 7, -2, -3, -7][t.choose(6)],
       2 => [1000, -1000, 65536, -65536, 1 << 20][t.choose(5)],
-      _ => [1 << 30, -(1 << 30), 2147483647, -2147483647][t.choose(4)],
+      // strides of the order of the whole range: few iterations, bounds and differences near INT_MAX / INT_MIN
+      _ => [1 << 30, -(1 << 30), 2147483647, -2147483647, 1_000_000_000, -1_000_000_000, 700_000_000, -700_000_000, 2_000_000_000, 1_500_000_000][t.choose(10)],
     };
     let o = ["<", "<=", ">", ">=", "!=", "=="][t.weighted(&[5, 4, 5, 4, 3, 1])];
     let n = if t.bool(1, 6) { 0 } else { t.int_in(0, 40) as i32 };
@@ -116,7 +150,7 @@ fn gen_loop(t: &mut Tape, cfg: &LoopCfg, k: usize, inner: Option<usize>) -> Loop
     // an effect inside an argument of the recursive call
     format!("if {{\n        let _ = Process.println(\"tick\");\n        {}\n      }} {{ {a} }} else {{ {b} }}", ["true", "false", "i % 2 == 0", "p"][t.choose(4)])
   };
-  let update = match t.weighted(&[4, if cfg.derived_iv { 4 } else { 0 }, 3, 2, 2, if cfg.possibly_zero_divisor { 3 } else { 0 }, 2, if inner.is_some() { 4 } else { 0 }, 2, 2, if cfg.derived_iv { 4 } else { 0 }, 2, if effects { 3 } else { 0 }, 4, if cfg.compare_after_add { 3 } else { 0 }, if small_range { 4 } else { 0 }]) {
+  let update = match t.weighted(&[4, if cfg.derived_iv { 4 } else { 0 }, 3, 2, 2, if cfg.possibly_zero_divisor { 3 } else { 0 }, 2, if inner.is_some() { 4 } else { 0 }, 2, 2, if cfg.derived_iv { 4 } else { 0 }, 2, if effects { 3 } else { 0 }, 4, if cfg.compare_after_add { 3 } else { 0 }, if small_range { 4 } else { 0 }, 4]) {
     0 => "acc + i".to_string(),
     1 => format!("acc + (i * {} + {})", lit(kc), lit(cc)),
     2 => "acc * 3 + i".to_string(),
@@ -168,8 +202,12 @@ fn gen_loop(t: &mut Tape, cfg: &LoopCfg, k: usize, inner: Option<usize>) -> Loop
       };
       format!("acc + (if {cond} {{ 1 }} else {{ 0 }})")
     }
+    // a second induction variable with a constant step and nothing else in the body (closed-form candidates)
+    16 => format!("acc + {}", lit([1, 2, -1, 7, 100][t.choose(5)])),
     _ => tick(t, "acc + 1".to_string(), if cfg.derived_iv { format!("i * {}", lit(kc)) } else { "acc + i".to_string() }),
   };
+  // range-spanning loops often keep the body empty apart from a constant-step accumulator
+  let update = if spanning && t.bool(1, 2) { format!("acc + {}", lit([1, 2, -1, 7][t.choose(4)])) } else { update };
   let result = match t.weighted(&[5, if cfg.derived_iv { 3 } else { 0 }, 2, if cfg.derived_iv { 2 } else { 0 }, if cfg.guard_as_result { 2 } else { 0 }, 2]) {
     0 => "acc".to_string(),
     1 => "i".to_string(),
